@@ -25,6 +25,7 @@ def run(ctx, broken):
     lines = r.emit("emitv", entries, ctx.seed, budget)
     lines += shifted_openings(ctx, lines)
     lines += unbound_key_commitments(ctx, lines)
+    lines += compensated_public_inputs(ctx, lines)
     lines += uncovered_evaluations(ctx, rng, 1 if ctx.tier == "quick" else 2)
     r.run(lines)
     st = r.report()
